@@ -8,6 +8,7 @@ import (
 	"bytes"
 	"crypto/sha1"
 	"fmt"
+	"os"
 	"sort"
 	"strings"
 	"time"
@@ -38,12 +39,16 @@ type inst struct {
 	orders [][]string // candidate LRU orders (front = next victim)
 	cap    int
 	filled int // big configurations: how many names the Fill operations have inserted so far
+	// twin configurations: the store of a second forwarding thread. The capacity is one
+	// process-wide setting that applies to each thread's store separately.
+	alt *inst
 }
 
 type sys struct {
 	names   []string
 	getters []string
 	cap0    int
+	twin    bool
 	ops     []explore.Op
 	do      map[string]func(in *inst) []report.Violation
 }
@@ -196,27 +201,71 @@ func (s *sys) New() any {
 		core.InitializeLogger("")
 	}
 	table.VerifConfigure(s.cap0, true, true, 6*time.Second)
-	return &inst{cs: table.NewPitCS(func(table.PitEntry) {}), ref: map[string]*refEntry{}, orders: [][]string{{}}, cap: s.cap0}
+	in := &inst{cs: table.NewPitCS(func(table.PitEntry) {}), ref: map[string]*refEntry{}, orders: [][]string{{}}, cap: s.cap0}
+	if s.twin {
+		in.alt = &inst{cs: table.NewPitCS(func(table.PitEntry) {}), ref: map[string]*refEntry{}, orders: [][]string{{}}, cap: s.cap0}
+	}
+	return in
+}
+
+// makeTwin turns the alphabet into one over TWO stores (two forwarding threads): every insert and
+// lookup exists once per store, capacity changes are process-wide. Each store is held to the
+// property on its own, and an operation on one store must leave the other's cached set alone.
+func (s *sys) makeTwin() {
+	s.twin = true
+	var ops []explore.Op
+	for _, op := range s.ops {
+		ops = append(ops, op)
+		if strings.HasPrefix(op.Name, "Cap(") || strings.HasPrefix(op.Name, "T(") {
+			continue
+		}
+		base := s.do[op.Name]
+		bn := "B:" + op.Name
+		ops = append(ops, explore.Op{Name: bn})
+		s.do[bn] = func(in *inst) []report.Violation {
+			in.alt.cap = in.cap
+			v := base(in.alt)
+			for i := range v {
+				v[i].Detail = "[second store] " + v[i].Detail
+			}
+			for _, x := range s.sizeCheck(in) {
+				x.Key = "operation on the second store: first store: " + x.Key
+				v = append(v, x)
+			}
+			return v
+		}
+		an := op.Name
+		s.do[an] = func(in *inst) []report.Violation {
+			v := base(in)
+			in.alt.cap = in.cap
+			for _, x := range s.sizeCheck(in.alt) {
+				x.Key = "operation on the first store: second store: " + x.Key
+				v = append(v, x)
+			}
+			return v
+		}
+	}
+	s.ops = ops
 }
 
 func (s *sys) Ops(any) []explore.Op { return s.ops }
 
-func (s *sys) cached(in *inst) []string {
-	d := table.VerifDumpPitCs(in.cs, vtime.Now())
-	out := []string{}
-	for _, c := range d.Cs {
-		out = append(out, c.Name)
-	}
-	sort.Strings(out)
-	return out
-}
-
 func (s *sys) put(in *inst, name string, fresh int, payload string) (v []report.Violation) {
 	p := mkData(name, fresh, payload)
 	_, existed := in.ref[name]
-	before := s.cached(in)
-	in.cs.InsertData(p.data, p.wire)
-	after := s.cached(in)
+	// the cached set before the insertion is the reference's: every operation ends with a
+	// comparison of the real cached set with the reference (sizeCheck), and a state in which they
+	// differ is reported and not continued
+	before := refNames(in)
+	// the caller owns the buffer it hands in and re-uses it afterwards (a face receive loop
+	// does): the store gets a private copy of the packet bytes, which is overwritten right after
+	buf := append([]byte(nil), p.wire...)
+	in.cs.InsertData(p.data, buf)
+	for i := range buf {
+		buf[i] = 0xAA
+	}
+	dump := table.VerifDumpPitCs(in.cs, vtime.Now())
+	after := dumpNames(dump)
 	stale := vtime.Now()
 	if fresh > 0 {
 		stale = stale.Add(time.Duration(fresh) * time.Millisecond)
@@ -290,8 +339,26 @@ func (s *sys) put(in *inst, name string, fresh int, payload string) (v []report.
 			delete(in.ref, x)
 		}
 	}
-	v = append(v, s.sizeCheck(in)...)
+	v = append(v, s.sizeCheckDump(in, dump)...)
 	return
+}
+
+func refNames(in *inst) []string {
+	names := make([]string, 0, len(in.ref))
+	for n := range in.ref {
+		names = append(names, n)
+	}
+	sort.Strings(names)
+	return names
+}
+
+func dumpNames(d table.VerifPitCsDump) []string {
+	out := make([]string, 0, len(d.Cs))
+	for _, c := range d.Cs {
+		out = append(out, c.Name)
+	}
+	sort.Strings(out)
+	return out
 }
 
 func contains(l []string, x string) bool {
@@ -303,24 +370,29 @@ func contains(l []string, x string) bool {
 	return false
 }
 
-func (s *sys) sizeCheck(in *inst) (v []report.Violation) {
-	d := table.VerifDumpPitCs(in.cs, vtime.Now())
+func (s *sys) sizeCheck(in *inst) []report.Violation {
+	return s.sizeCheckDump(in, table.VerifDumpPitCs(in.cs, vtime.Now()))
+}
+
+func (s *sys) sizeCheckDump(in *inst, d table.VerifPitCsDump) (v []report.Violation) {
 	if in.cs.CsSize() != len(d.Cs) {
 		v = append(v, report.Violation{Clause: "C07.size", Key: "CsSize differs from stored entries", Detail: fmt.Sprintf("CsSize()=%d but %d entries stored", in.cs.CsSize(), len(d.Cs))})
 	}
-	names := []string{}
-	for n := range in.ref {
-		names = append(names, n)
-	}
-	sort.Strings(names)
-	got := s.cached(in)
+	names := refNames(in)
+	got := dumpNames(d)
 	if strings.Join(names, ",") != strings.Join(got, ",") {
 		v = append(v, report.Violation{Clause: "C07.size", Key: "cached set differs from reference", Detail: fmt.Sprintf("cached %v, reference %v", got, names)})
 	}
 	return
 }
 
-func (s *sys) get(in *inst, name string, cbp, mbf bool) (v []report.Violation) {
+// get = one lookup checked against the reference; a lookup never changes the cached set
+func (s *sys) get(in *inst, name string, cbp, mbf bool) []report.Violation {
+	v := s.lookup(in, name, cbp, mbf)
+	return append(v, s.sizeCheck(in)...)
+}
+
+func (s *sys) lookup(in *inst, name string, cbp, mbf bool) (v []report.Violation) {
 	now := vtime.Now()
 	it := &spec.Interest{NameV: nm(name), CanBePrefixV: cbp, MustBeFreshV: mbf}
 	e := in.cs.FindMatchingDataFromCS(it)
@@ -355,6 +427,11 @@ func (s *sys) get(in *inst, name string, cbp, mbf bool) (v []report.Violation) {
 	if !bytes.Equal(wire, r.wire) {
 		v = append(v, report.Violation{Clause: "C07.bytes", Key: "bytes differ from last insert", Detail: fmt.Sprintf("Get(%s) returned bytes that differ from the packet last inserted under %s", name, gn)})
 	}
+	// what Copy hands out belongs to the caller, who may change it (the next lookup must still
+	// return the inserted bytes)
+	for i := range wire {
+		wire[i] ^= 0xFF
+	}
 	if mbf && !now.Before(r.staleAt) {
 		v = append(v, report.Violation{Clause: "C07.fresh", Key: fmt.Sprintf("stale entry served to MustBeFresh (cbp=%v)", cbp), Detail: fmt.Sprintf("Get(%s,mbf) returned %s which went stale %v ago", name, gn, now.Sub(r.staleAt))})
 	}
@@ -377,6 +454,14 @@ func (s *sys) Apply(i any, op explore.Op) []report.Violation { return s.do[op.Na
 
 func (s *sys) Canon(i any) string {
 	in := i.(*inst)
+	if in.alt != nil {
+		in.alt.cap = in.cap
+		return canonOne(in) + " ||B|| " + canonOne(in.alt)
+	}
+	return canonOne(in)
+}
+
+func canonOne(in *inst) string {
 	now := vtime.Now()
 	var b strings.Builder
 	names := []string{}
@@ -425,6 +510,64 @@ func build(cfg string) explore.System {
 		}
 		s.ops = keep
 		return s
+	case strings.HasPrefix(cfg, "order"), strings.HasPrefix(cfg, "hist"):
+		// the LRU ORDER universe: n names (more than any capacity used, so every capacity can be
+		// filled and overflowed), initial capacity c, the capacity moved to EVERY value 0..n
+		// through management (raised above and lowered below the occupancy), inserts, refreshes,
+		// and exact hits at every occupancy below, at and above the capacity.
+		// Small alphabet, so the search runs to a FIXPOINT: every reachable (cached list in
+		// recency order x capacity) combination is visited and every operation tried in it.
+		// "hist" is the same alphabet without capacity changes, for searches without
+		// state de-duplication.
+		// "order+fresh": every packet carries a 1 s freshness period, lookups also with
+		// MustBeFresh, and the clock can step 1 s: a MustBeFresh hit counts like any exact hit, a
+		// MustBeFresh miss on a stale entry does not. "order twin": two stores (two forwarding
+		// threads) under the one process-wide capacity.
+		var n, c int
+		hist := strings.HasPrefix(cfg, "hist")
+		withFresh := strings.HasPrefix(cfg, "order+fresh")
+		twin := strings.HasPrefix(cfg, "order twin")
+		switch {
+		case hist:
+			fmt.Sscanf(cfg, "hist n=%d cap=%d", &n, &c)
+		case withFresh:
+			fmt.Sscanf(cfg, "order+fresh n=%d cap=%d", &n, &c)
+		case twin:
+			fmt.Sscanf(cfg, "order twin n=%d cap=%d", &n, &c)
+		default:
+			fmt.Sscanf(cfg, "order n=%d cap=%d", &n, &c)
+		}
+		all := []string{"/a", "/a/b", "/c", "/c/d", "/e", "/e/f/g", "/h"}
+		var caps []int
+		for k := 0; k <= n && !hist; k++ {
+			caps = append(caps, k)
+		}
+		fresh, dts := []int{-1}, []int(nil)
+		if withFresh {
+			fresh, dts = []int{1000}, []int{1000}
+		}
+		s := newSys(all[:n], c, caps, fresh, dts)
+		var keep []explore.Op
+		for _, op := range s.ops {
+			switch {
+			case strings.HasPrefix(op.Name, "Put(") && strings.HasSuffix(op.Name, ",p)"):
+				keep = append(keep, op)
+			case strings.HasPrefix(op.Name, "Get(/,"), strings.HasPrefix(op.Name, "Get(/zz"):
+			case strings.HasPrefix(op.Name, "Get(") && strings.Contains(op.Name, "cbp=false,mbf=false"):
+				keep = append(keep, op)
+			case strings.HasPrefix(op.Name, "Get(") && strings.Contains(op.Name, "cbp=false,mbf=true") && withFresh:
+				keep = append(keep, op)
+			case strings.HasPrefix(op.Name, "Cap(") && !strings.Contains(op.Name, "flags"):
+				keep = append(keep, op)
+			case strings.HasPrefix(op.Name, "T("):
+				keep = append(keep, op)
+			}
+		}
+		s.ops = keep
+		if twin {
+			s.makeTwin()
+		}
+		return s
 	case strings.HasPrefix(cfg, "ambig"):
 		// names that differ only in where the component boundaries / which the component types are:
 		// /a/b, the single component "a"+<8-byte type 8>+"b", the same value under type 264
@@ -441,8 +584,23 @@ func build(cfg string) explore.System {
 		for i := 0; i < 2*c+8; i++ {
 			names = append(names, fmt.Sprintf("/n/%d", i))
 		}
-		s := newSys(names, c, nil, []int{-1}, nil)
-		s.ops = nil
+		// the capacity is also halved and doubled through management between the fills (a raise
+		// above the occupancy followed by fills up to the new capacity), and the oldest entries are
+		// hit / refreshed while the store is below, at and above its capacity
+		s := newSys(names, c, []int{c / 2, 2 * c}, []int{-1}, nil)
+		var capOps []explore.Op
+		for _, op := range s.ops {
+			if strings.HasPrefix(op.Name, "Cap(") && !strings.Contains(op.Name, "flags") {
+				capOps = append(capOps, op)
+			}
+		}
+		s.ops = capOps
+		tag := func(v []report.Violation) []report.Violation {
+			for i := range v {
+				v[i].Key = fmt.Sprintf("capacity %d: %s", c, v[i].Key)
+			}
+			return v
+		}
 		for _, k := range []int{c - 1, c + 1, c + 6} {
 			k := k
 			name := fmt.Sprintf("Fill(%d new names)", k)
@@ -456,10 +614,27 @@ func build(cfg string) explore.System {
 						v = s.get(in, n, false, false)
 					}
 				}
-				for i := range v {
-					v[i].Key = fmt.Sprintf("capacity %d: %s", c, v[i].Key)
+				return tag(v)
+			}
+		}
+		// every third cached entry, oldest first, is hit by an exact-name lookup / refreshed
+		for _, refresh := range []bool{false, true} {
+			refresh := refresh
+			name := "HitOld(every 3rd cached entry, oldest first)"
+			if refresh {
+				name = "RefreshOld(every 3rd cached entry, oldest first)"
+			}
+			s.ops = append(s.ops, explore.Op{Name: name})
+			s.do[name] = func(in *inst) (v []report.Violation) {
+				order := append([]string{}, in.orders[0]...)
+				for i := 0; i < len(order) && len(v) == 0; i += 3 {
+					if refresh {
+						v = s.put(in, order[i], -1, "q")
+					} else {
+						v = s.get(in, order[i], false, false)
+					}
 				}
-				return
+				return tag(v)
 			}
 		}
 		return s
@@ -484,6 +659,16 @@ func main() {
 		ID: "C07", PanicClause: "C07.panic", Build: build,
 		Configs: func(th bool) []explore.Config {
 			var c []explore.Config
+			// LRU order universes first: cheap, run to a fixpoint, never starved by the budget
+			c = append(c, explore.Config{Name: "order n=4 cap=3", MaxDepth: 64, MaxDev: -1})
+			c = append(c, explore.Config{Name: "order twin n=3 cap=2", MaxDepth: 64, MaxDev: -1})
+			c = append(c, explore.Config{Name: "order n=5 cap=4", MaxDepth: 64, MaxDev: -1})
+			c = append(c, explore.Config{Name: "order+fresh n=4 cap=3", MaxDepth: 64, MaxDev: -1})
+			if th {
+				c = append(c, explore.Config{Name: "order n=6 cap=5", MaxDepth: 64, MaxDev: -1})
+				c = append(c, explore.Config{Name: "order twin n=4 cap=3", MaxDepth: 64, MaxDev: -1})
+				c = append(c, explore.Config{Name: "order+fresh n=5 cap=4", MaxDepth: 64, MaxDev: -1})
+			}
 			d1, d2 := 10, 4
 			if th {
 				d1, d2 = 12, 6
@@ -502,7 +687,11 @@ func main() {
 				if k == 1024 && !th {
 					continue
 				}
-				c = append(c, explore.Config{Name: fmt.Sprintf("big cap=%d", k), MaxDepth: 2, MaxDev: -1})
+				bd := 3
+				if k == 1024 {
+					bd = 2
+				}
+				c = append(c, explore.Config{Name: fmt.Sprintf("big cap=%d", k), MaxDepth: bd, MaxDev: -1})
 			}
 			// audit of the canonical form: the same search without state de-duplication
 			ad := 3
@@ -517,6 +706,18 @@ func main() {
 			}
 			c = append(c, explore.Config{Name: "history search (no dedup) lru cap=2", BuildName: "lru cap=2", MaxDepth: ld, MaxDev: -1, NoDedup: true})
 			c = append(c, explore.Config{Name: "history search (no dedup) lru cap=1", BuildName: "lru cap=1", MaxDepth: ld - 1, MaxDev: -1, NoDedup: true})
+			// the same at a capacity that needs three entries before anything is evicted: hits and
+			// refreshes below the capacity, then fills (4 names, capacity 3)
+			c = append(c, explore.Config{Name: "history search (no dedup) hist n=4 cap=3", BuildName: "hist n=4 cap=3", MaxDepth: ld - 1, MaxDev: -1, NoDedup: true})
+			if only := os.Getenv("C07_ONLY"); only != "" { // development aid: run matching configurations only
+				var f []explore.Config
+				for _, x := range c {
+					if strings.Contains(x.Name, only) {
+						f = append(f, x)
+					}
+				}
+				c = f
+			}
 			return c
 		},
 		Budget: func(th bool) time.Duration {
@@ -525,8 +726,10 @@ func main() {
 			}
 			return 90 * time.Second
 		},
-		Rule: "BFS over histories of InsertData (4 names sharing prefixes x freshness {absent,0,1s} x 2 payloads), FindMatchingDataFromCS (every name, root, unknown name x CanBePrefix x MustBeFresh), SetCsCapacity(0..3) and clock steps on the real PitCsTree with the real CsLRU under a virtual clock; each transition checked against a reference store; eviction victims must be the head of a candidate LRU order",
+		Rule: "BFS over histories of InsertData (4 names sharing prefixes x freshness {absent,0,1s} x 2 payloads), FindMatchingDataFromCS (every name, root, unknown name x CanBePrefix x MustBeFresh), SetCsCapacity(0..3) and clock steps on the real PitCsTree with the real CsLRU under a virtual clock; each transition checked against a reference store; eviction victims must be the head of a candidate LRU order. LRU-order universes (4-6 names, inserts, refreshes, exact hits, capacity moved to every value 0..n through management, optionally freshness + MustBeFresh + clock, optionally two stores under the one process-wide capacity) run to a FIXPOINT: every reachable (recency-ordered cached list x capacity) state with the store below, at and above its capacity. Large-capacity configurations (64/128/1024) combine fills with halving/doubling the capacity and hits/refreshes of the oldest entries. Every buffer handed to InsertData is overwritten after the call and every buffer returned by Copy is overwritten after it was compared",
 		Assumptions: []string{
+			"the caller of InsertData may re-use its buffer after the call, and the caller of CsEntry.Copy owns the returned bytes (both are overwritten by the harness)",
+			"the configured capacity is process-wide and applies to each forwarding thread's store separately; an operation on one store leaves the other's cached set unchanged",
 			"a CanBePrefix lookup answered by the entry whose name equals the Interest name may or may not refresh its recency (both accepted); other prefix hits do not, exact (non-CanBePrefix) hits, inserts and refreshes do",
 			"prefix lookups may return any matching fresh-enough entry, or none",
 			"accidental 64-bit hash collisions are outside the universe; structural collisions (names whose components concatenate to the same bytes) are inside it (universe ambig)",
